@@ -1,6 +1,6 @@
 import Zc.Proofs.Response
 import Zc.Proofs.ResponseComplete
-import Zc.Props.C11Net
+import Zc.Props.C11Wire
 /-! # C11 — replies are routed and formatted as RFC 6762 §5.4, §6 and §6.7 require
 
 The decision logic of `_QueryResponse` / `async_response` / `handle_assembled_query` stated outright,
